@@ -311,6 +311,8 @@ func scenariosC15() []pscenario {
 			{at: 4 * time.Second, kind: "lc-state", who: "i1", part: 1, to: ring.PartitionActive},
 			{at: 5 * time.Second, kind: "lock", part: 1}, {at: 6 * time.Second, kind: "lc-state", who: "i1", part: 1, to: ring.PartitionInactive, want: ring.ErrPartitionStateChangeLocked}}, horizon: 9 * time.Second},
 		{name: "delete-orphan-partition", seed: inactiveOrphan, lcs: []plcSpec{{id: "i1", partition: 1, waitOwners: 1}}, horizon: 28 * time.Second},
+		// an operator re-activates the orphan at the very moment another lifecycler's reconciliation is about to delete it
+		{name: "delete-orphan-vs-reactivation", seed: inactiveOrphan, lcs: []plcSpec{{id: "i1", partition: 1, waitOwners: 1}}, actions: []paction{{at: 25 * time.Second, kind: "state", part: 2, to: ring.PartitionActive}}, horizon: 32 * time.Second},
 		{name: "own-partition-inactive-and-ownerless", lcs: []plcSpec{{id: "i1", partition: 1, waitOwners: 1, multi: true}, {id: "i3", partition: 3, waitOwners: 1}},
 			actions: []paction{{at: 1 * time.Second, kind: "state", part: 1, to: ring.PartitionInactive}, {at: 2 * time.Second, kind: "remove-owner", who: "i1", part: 1}, {at: 26 * time.Second, kind: "stop", who: "i3"}}, horizon: 34 * time.Second},
 		{name: "stop-removes-owner-then-delete", lcs: []plcSpec{{id: "i1", partition: 1, waitOwners: 1, removeOwner: true}, {id: "i2", partition: 2, waitOwners: 1}},
